@@ -204,6 +204,8 @@ static void sig_handler(void)
 {
 	/* C19: read-side critical section inside a signal handler; must leave the reader state unchanged */
 	unsigned long before = own_word(), after;
+	/* rcu_read_ongoing() registers an unregistered thread: asked only when the thread has a reader slot (otherwise: not ongoing) */
+	int ongoing_before = URCU_TLS(urcu_bp_reader) ? !!urcu_bp_read_ongoing() : 0;
 	struct obj *p;
 	unsigned long saved_cs = open_cs[me->idx];
 	vrt_log("\"op\":\"call\",\"api\":\"sig\"");
@@ -217,6 +219,8 @@ static void sig_handler(void)
 	/* nesting must be exactly as before; inside a section the whole word (its phase) too */
 	if ((after & URCU_BP_GP_CTR_NEST_MASK) != (before & URCU_BP_GP_CTR_NEST_MASK) || ((before & URCU_BP_GP_CTR_NEST_MASK) && after != before))
 		vrt_fail("ORACLE signal handler changed the interrupted thread's reader state (ctr %lx -> %lx)", before, after);
+	if (!!urcu_bp_read_ongoing() != ongoing_before || ongoing_before != !!(before & URCU_BP_GP_CTR_NEST_MASK))
+		vrt_fail("ORACLE rcu_read_ongoing() not restored by the signal handler or inconsistent with the nesting count (%d -> %d, ctr %lx)", ongoing_before, !!urcu_bp_read_ongoing(), before);
 	check_slot("signal handler");
 	vrt_log("\"op\":\"ret\",\"r\":\"sig\"");
 }
